@@ -24,7 +24,7 @@ def opid(o):
 
 
 def inputs_of(hist):
-    return [{k: v for k, v in s.items() if k in ("a", "op", "l", "rej", "c")} for s in hist]
+    return [{k: v for k, v in s.items() if k in ("a", "op", "l", "rej", "c", "w")} for s in hist]
 
 
 def subctx(ctx, k):
@@ -105,11 +105,26 @@ def shape(hist):
     return tags, mine, others
 
 
+TWICE = "operation-stored-by-two-overlapping-stores"
+
+
+def stored_twice(hist):
+    """operations that two overlapping SetOperation calls both stored (both returned true)"""
+    n = {}
+    for e in hist:
+        if e["a"] == "SetE" and e.get("ret"):
+            n[opid(e["op"])] = n.get(opid(e["op"]), 0) + 1
+    return {x for x, k in n.items() if k > 1}
+
+
 def classify_r6(hist):
     """an entry that the filter of a call rejected which had returned before this call started"""
     ev = hist[-1]
     tags, mine, others = shape(hist)
     ret = {opid(o) for o in ev["ret"]}
+    _, banned = statement_state(hist)
+    if ret & banned & stored_twice(hist):
+        return "R6-filtered-out-again;" + TWICE
     before = [o for o in others if o[1] < mine[0]]
     culprits = [o for o in before if o[3] & ret]
     why = []
@@ -132,6 +147,9 @@ def classify(cls, hist):
     ev = hist[-1]
     if cls == "R6-filtered-out-again":
         return classify_r6(hist)
+    if cls == "R4-most-recent" and {opid(o) for o in ev["ret"]} & stored_twice(hist):
+        # an older operation is handed out from the record the pool can no longer take out
+        return "R4-most-recent;" + TWICE
     if ev["a"] == "CallE":
         # the call's CallB event holds the index the pool showed when the call started
         mine = shape(hist)[1]
@@ -184,7 +202,7 @@ def brief_of(hist):
     out = []
     for e in hist:
         if e["a"] in ("Set", "SetB", "SetE"):
-            out.append([e["a"], opid(e["op"])])
+            out.append([e["a"], opid(e["op"])] + ([e["ret"]] if "ret" in e and e["a"] == "SetE" else []))
         elif e["a"] == "CallB":
             out.append(["CallB", e["c"], {"l": e["l"], "rej": [opid(o) for o in e["rej"]]}])
         elif e["a"] in ("Call", "CallE"):
@@ -204,11 +222,14 @@ def run(ctx):
     t0 = time.time()
 
     # ---------------------------------------------------------------- TLC: model runs and inputs, side by side
+    # the quick instances are small: two workers finish sooner (and with a third of the CPU) than eight
+    wk = 2 if quick else None
+
     def mc(c, cfg):
-        return c.tlc("PoolOps", cfg, timeout=3000)
+        return c.tlc("PoolOps", cfg, timeout=3000, workers=wk)
 
     def cand(c, cfg):
-        rp = c.tlc("PoolOps", cfg, allow_violation=True, count=False, timeout=900)
+        rp = c.tlc("PoolOps", cfg, allow_violation=True, count=False, timeout=900, workers=2)
         hist = None
         if rp.safety_violation:
             p = os.path.join(c.work, "cex.txt")
@@ -219,8 +240,8 @@ def run(ctx):
         return (cfg, rp.violated, hist)
 
     def dump(c, cfg):
-        _, steps = c.tlc_dump_steps("PoolOps", cfg, timeout=3000)
-        return maximal(steps)
+        _, steps = c.tlc_dump_steps("PoolOps", cfg, timeout=3000, workers=wk)
+        return sorted(maximal(steps), key=lambda h: json.dumps(h, sort_keys=True))   # the order of a dump is not stable
 
     def walk(c, cfg, num, depth):
         _, behs = c.tlc_simulate("PoolOps", cfg, num=num, depth=depth, timeout=1800)
@@ -235,25 +256,38 @@ def run(ctx):
         # 2. candidates: counterexamples of the pinned-tree transcription and of a removal step that gives up
         #    when a record of its list is already gone
         (cand, ("PoolOps_pinned_r0.cfg",)), (cand, ("PoolOps_pinned_r2.cfg",)), (cand, ("PoolOps_pinned_r4.cfg",)),
-        (cand, ("PoolOps_conc_abort.cfg",)),
+        (cand, ("PoolOps_conc_abort.cfg",)), (cand, ("PoolOps_conc_set2.cfg",)),
         # 3. every input sequence of the small instances
         (dump, ("PoolOps_enum_%s.cfg" % t,)),
         (dump, ("PoolOps_conc_enum_%s.cfg" % t,)),
-        # 4. seeded random walks of the larger instances (the concurrent one: complete walks, depth > longest)
-        (walk, ("PoolOps_sim.cfg", 300 if quick else 3000, 16)),
+        (dump, ("PoolOps_set2_enum_%s.cfg" % t,)),
+        # 4. seeded random walks of the larger instances (complete walks: only the last state carries its input
+        #    sequence, the depth bound is beyond the longest walk)
+        (walk, ("PoolOps_sim.cfg", 300 if quick else 3000, 40)),
         (walk, ("PoolOps_conc_sim.cfg", 300 if quick else 3000, 40)),
     ]
     subs = [subctx(ctx, k) for k in range(len(jobs))]
     with concurrent.futures.ThreadPoolExecutor(max_workers=5 if quick else 3) as ex:
-        futs = [ex.submit(f, c, *args) for (f, args), c in zip(jobs, subs)]
+        def timed(f, c, *args):
+            t1 = time.time()
+            r = f(c, *args)
+            return r, round(time.time() - t1, 1)
+        futs = [ex.submit(timed, f, c, *args) for (f, args), c in zip(jobs, subs)]
         done = [f.result() for f in futs]      # a MachineryError of a run is raised here
+    ctx.extra["tlc_job_s"] = {"%s:%s" % (f.__name__, args[0]): w for (f, args), (_, w) in zip(jobs, done)}
+    done = [r for (r, _) in done]
     for c in subs:
         ctx.states += c.states
         ctx.transitions += c.transitions
         ctx.tlc_cmds += c.tlc_cmds
     ctx.exhaustive = True
-    cres, (mx, cmx, sim, csim) = done[2:6], done[6:10]
-    abort = cres[3]
+    cres, (mx, cmx, smx, sim, csim) = done[2:7], done[7:12]
+    smx = [h for h in smx if any(s_["a"] == "Set2" for s_ in h)]
+    abort, set2 = cres[3], cres[4]
+    if set2[1] != "R6ok" or set2[2] is None:
+        raise core.MachineryError("R6ok is not violated when two overlapping stores of one operation both write "
+                                  "(PoolOps_conc_set2.cfg): the model lost its sensitivity")
+    ctx.extra["model_candidate_two_overlapping_stores_both_write"] = "R6ok violated (as it must be)"
     if abort[1] != "R6ok" or abort[2] is None:
         raise core.MachineryError("R6ok is not violated when the removal step gives up on a record that is already gone "
                                   "(PoolOps_conc_abort.cfg): the model lost its sensitivity")
@@ -265,6 +299,9 @@ def run(ctx):
 
     def add(hist, tag, **kw):
         b = {"i": len(behs), "steps": inputs_of(hist) + [OBSERVER]}
+        for s_ in b["steps"]:
+            if s_["a"] == "Set2":       # which of the two stores writes first
+                s_["w"] = (len(behs) + ctx.seed) % 2
         b.update(kw)
         behs.append(b)
         tags.append(tag)
@@ -277,6 +314,8 @@ def run(ctx):
         add(h, "enum")
     for k, h in enumerate(cmx):
         add(h, "forced-enum") if quick or (k + ctx.seed) % 2 == 0 else add(h, "forced-enum", park="last")
+    for h in smx:
+        add(h, "set2-enum")
     for h in sim:
         add(h, "sim")
     for k, h in enumerate(csim):
@@ -288,9 +327,11 @@ def run(ctx):
     ctx.rule = ("input sequences of SetOperation(fact re-signed by several signers) / OperationHashes(limit, filter), each followed by one "
                 "unfiltered call: one caller - every maximal sequence of the small PoolOps instance (%d), seeded -simulate walks (%d); "
                 "overlapping calls of 2-3 callers as forced Begin/End schedules - every maximal sequence of the small concurrent instance (%d), "
-                "seeded complete walks of the larger one (%d); the same walks unforced (%d); TLC counterexamples of the candidate "
-                "transcriptions (%d); non-trivial = at least one call after at least one store; distinct by input sequence, park position and mode"
-                % (len(mx), len(sim), len(cmx), len(csim), nfree, len(cands)))
+                "seeded complete walks of the larger one (%d); the same walks unforced (%d); two overlapping stores of one operation (both parked "
+                "between check and write) among stores and calls - every maximal sequence of a small instance (%d) and in the walks; TLC "
+                "counterexamples of the candidate transcriptions (%d); non-trivial = at least one call after at least one store; distinct by "
+                "input sequence, park position and mode"
+                % (len(mx), len(sim), len(cmx), len(csim), nfree, len(smx), len(cands)))
     inp = os.path.join(ctx.work, "behs.ndjson")
     core.write_ndjson(inp, behs)
     trace = os.path.join(ctx.work, "trace.ndjson")
@@ -307,7 +348,7 @@ def run(ctx):
     for b in behs:
         ins = b["steps"][:-1]
         ctx.case([ins, b.get("park"), b.get("mode")],
-                 nontrivial=any(s["a"] in ("Call", "Begin") for s in ins) and ins[0]["a"] == "Set" if ins else False,
+                 nontrivial=any(s["a"] in ("Call", "Begin") for s in ins) and ins[0]["a"] in ("Set", "Set2") if ins else False,
                  sample=[[s["a"], s.get("op") or ([s.get("c")] if s.get("c") else []) + ([s["l"], s.get("rej")] if "l" in s else [])]
                          for s in ins])
     ctx.traces += len(behs)
@@ -338,7 +379,7 @@ def run(ctx):
         ctx.tlc_cmds += c.tlc_cmds
     calls = sum(1 for e in events if e["a"] in ("Call", "CallE"))
     overlapped = 0
-    r7 = 0
+    r7 = r5x = 0
     reproduced = set()
     for k, part in enumerate(parts):
         ok, res, hw = vres[k]
@@ -366,8 +407,9 @@ def run(ctx):
                     r7 += 1
                     continue
                 key = classify(cls, hist)
-                if cls == "R4-most-recent" and any(kk.startswith("stale-fact-index") for kk in keys):
-                    continue   # the duplicate entry of the same call: one defect, reported once
+                if cls == "R4-most-recent" and (any(kk.startswith("stale-fact-index") for kk in keys)
+                                                or "R6-filtered-out-again" in classes):
+                    continue   # the duplicate entry / the filtered-out entry of the same call: one defect, reported once
                 if key not in keys:
                     keys.append(key)
             for key in keys:
@@ -383,12 +425,13 @@ def run(ctx):
                 ctx.violation(key, what, {"classes": classes, "history": hist, "behaviour": bi,
                                           "source": tags[bi] if bi is not None else None,
                                           "input": behs[bi] if bi is not None else None})
-    # how much the recorded calls really overlapped
+    # how much the recorded calls really overlapped; stores of one operation that both returned true
     j = 0
     while j < len(events):
         k = j + 1
         while k < len(events) and events[k]["a"] != "Reset":
             k += 1
+        r5x += len(stored_twice(events[j + 1:k]))
         ivs = intervals(events[j + 1:k])
         overlapped += sum(1 for a in ivs if any(a is not b and overlap(a, b) for b in ivs))
         j = k
@@ -407,6 +450,7 @@ def run(ctx):
     ctx.extra["unforced_races"] = nfree
     ctx.extra["events"] = len(events)
     ctx.extra["stronger_reading_R7_eligible_fact_missing"] = r7
+    ctx.extra["stronger_reading_R5x_two_overlapping_stores_of_one_operation_both_returned_true"] = r5x
     ctx.assumptions = ["filters are functions of the operation (sets of rejected operations); the rejections the filter really made are logged",
                        "insertion order = order of SetOperation calls (the ordered key is the insertion time in ns; the driver lets 2us pass between stores; "
                        "stores are made by one goroutine at a time)",
@@ -416,4 +460,6 @@ def run(ctx):
                        "a forced call is parked in ONE filter callback (first or last record of its snapshot): the scan reads a leveldb snapshot, so the "
                        "position of the park inside the scan changes nothing; the removal step (reads + one batch) is not split",
                        "R7 (with room left every eligible fact is handed out) is the stronger reading: counted, never an alarm",
-                       "concurrent SetOperation of the SAME operation, clean-up passes and corrupt records are not explored"]
+                       "overlapping SetOperation calls: only two calls of the SAME new operation (Set2: both parked between the pool's check and its "
+                       "write, inside the encoder handed to the pool); stores of different operations never overlap",
+                       "clean-up passes and corrupt records are not explored"]
